@@ -31,14 +31,16 @@ type QTx struct {
 }
 
 type World struct {
-	adb    *account.AccountDB
-	univ   []common.Address
-	height uint64
-	seq    uint64
-	queue  []*QTx
-	inits  map[int]Script
-	codes  map[common.Address]Script
-	out    *hx.Out
+	adb      *account.AccountDB
+	univ     []common.Address
+	height   uint64
+	seq      uint64
+	queue    []*QTx
+	inits    map[int]Script
+	codes    map[common.Address]Script
+	out      *hx.Out
+	authUsed bool            // a queued transaction of the current block already targets authC
+	authC    *common.Address // the one contract whose script uses AUTHCALL (re-assembled before every block)
 }
 
 func newAccountDB() *account.AccountDB {
@@ -66,6 +68,7 @@ func (w *World) Reset(emit bool) {
 	w.queue = nil
 	w.inits = map[int]Script{}
 	w.codes = map[common.Address]Script{}
+	w.authC = nil
 	if emit {
 		w.out.Emit("reset", "ok")
 		w.Univ(w.univ)
@@ -93,8 +96,33 @@ func (w *World) Init(id int, s Script) {
 
 func (w *World) Code(a common.Address, s Script) {
 	w.codes[a] = s
-	w.adb.SetCode(a, assemble(s, w.inits, nil, w.budget))
+	hasAc := false
+	for _, x := range s {
+		if x.Kind == "ac" {
+			hasAc = true
+		}
+	}
+	if hasAc {
+		aa := a
+		w.authC = &aa
+		w.refreshAuth()
+	} else {
+		if w.authC != nil && *w.authC == a {
+			w.authC = nil
+		}
+		w.adb.SetCode(a, assemble(s, w.inits, nil, w.budget))
+	}
 	w.out.Emit(fmt.Sprintf("code %s %s", hexAddr(a), s.String()), "ok")
+}
+
+// refreshAuth re-assembles the AUTHCALL contract with the authority's current nonce.
+func (w *World) refreshAuth() {
+	if w.authC == nil {
+		return
+	}
+	a := *w.authC
+	au := newAuth(a, w.height+1, w.adb.GetNonce(authorityAddr()), w.budget)
+	w.adb.SetCode(a, assemble(w.codes[a], w.inits, au, w.budget))
 }
 
 // Total is the sum of every native-token balance there is: all slots of the token contract's
@@ -253,6 +281,8 @@ type BlockResult struct {
 // Exec runs the queued transactions as one block through the unmodified VMExecutor and emits
 // the tx lines (with the gas oracle) and the exec line.
 func (w *World) Exec() BlockResult {
+	w.refreshAuth()
+	w.authUsed = false
 	res := BlockResult{Before: w.Total()}
 	w.height++
 	common.SetBlockHeight(w.height)
